@@ -19,7 +19,8 @@ MAP = {
          ("Sorted", ["sorted_spec", "spec_sorted_perm", "spec_sorted_sorted", "spec_sorted_stable"]),
          ("Largest", ["nlargest_spec", "nsmallest_spec"])],
  "C04": [("ReleaseAll", ["tool_releases", "tool_releases_closed", "tool_releases_partial", "tool_releases_refuted"]),
-         ("Release", ["scoped_releases", "close_all_releases"]), ("ReleaseChain", ["chain_releases", "chain_close_releases"])],
+         ("Release", ["scoped_releases", "close_all_releases"]), ("ReleaseChain", ["chain_releases", "chain_close_releases"]),
+         ("Static", ["scoping_releases", "scoping_nonempty"])],
  "C05": [("Zip", ["zip_trace"]), ("Map", ["map_trace"]), ("Filter", ["filter_trace"]), ("Enumerate", ["enumerate_trace"]),
          ("Accumulate", ["accumulate_trace_partial", "accumulate_trace_refuted"]), ("Batched", ["batched_trace_partial", "batched_trace_refuted"]),
          ("Chain", ["chain_trace"]), ("Compress", ["compress_trace"]), ("Cycle", ["cycle_trace"]),
@@ -52,7 +53,7 @@ MAP = {
                       "apply_positional_before_keyword", "apply_awaits_before_call"])],
  "C20": [("Retention", ["tee_buffer_is_lead", "tee_done_children_hold_nothing", "largest_fill_bound", "replace_lent_length", "merge_heads_bound",
                        "put_src_length", "drop_src_length", "fill_batch_bound"])],
- "C06": [("RegularTools", ["fault_transparent", "fault_outcome", "fault_prefix", "run_tool_regular"])],
+ "C06": [("RegularTools", ["fault_transparent", "fault_outcome", "fault_prefix", "run_tool_regular"]), ("Static", ["handlers_only_protocol"])],
  "C18": [("RegularTools", ["fault_transparent", "run_tool_regular"]), ("ReleaseAll", ["tool_releases", "tool_releases_closed"])],
 }
 HEADER = """(* Property %s -- theorems only: each statement is restated here and closed by [exact] of the lemma
